@@ -92,6 +92,24 @@ func scenarios(indexed bool) []*eng.Scenario {
 				{ins("a", paddedDocs(2600, 700)...)}, // beyond badger's per-transaction limit in this configuration: refused as a whole there
 				{{K: "count", Q: all}, {K: "count", Q: qOn("a", m.Leaf("gte", "x", int64(0)))}},
 			}},
+		{Name: "S14-two-creators-of-one-collection" + suffix, Setup: with(),
+			Threads: [][]m.Op{
+				{{K: "createColl", Coll: "b"}, {K: "createIndex", Coll: "b", Field: "x"}, ins("b", doc(u1, "x", int64(1)), doc(u2, "x", int64(2)))},
+				{{K: "createColl", Coll: "b"}},
+				{{K: "count", Q: qOn("b", nil)}},
+			}},
+		{Name: "S15-two-creators-of-one-index" + suffix, Setup: with(ins("a", doc(u1, "x", int64(1), "y", int64(1)), doc(u2, "x", int64(2), "y", int64(2)))),
+			Threads: [][]m.Op{
+				{{K: "createIndex", Coll: "a", Field: "y"}},
+				{{K: "createIndex", Coll: "a", Field: "y"}, {K: "dropIndex", Coll: "a", Field: "y"}},
+				{{K: "hasIndex", Coll: "a", Field: "y"}, {K: "findAll", Q: &m.Q{Coll: "a", Sort: sortBy("y", 1)}}},
+			}},
+		{Name: "S16-two-droppers" + suffix, Setup: with(ins("a", doc(u1, "x", int64(1))), m.Op{K: "createIndex", Coll: "a", Field: "y"}),
+			Threads: [][]m.Op{
+				{{K: "dropIndex", Coll: "a", Field: "y"}},
+				{{K: "dropIndex", Coll: "a", Field: "y"}, {K: "createIndex", Coll: "a", Field: "y"}},
+				{{K: "dropColl", Coll: "a"}},
+			}},
 		{Name: "S8-drop-index-vs-indexed-update" + suffix, Setup: with(ins("a", doc(u1, "x", int64(1)), doc(u2, "x", int64(2)))),
 			Threads: [][]m.Op{
 				{{K: "dropIndex", Coll: "a", Field: "x"}},
@@ -168,7 +186,7 @@ func init() {
 	register("C07", "model_checking", func(run *ev.Run, tier string) string {
 		tags := own("nonlinearizable", "deadlock", "rawkeys", "count", "indexquery", "id", "panic", "leak", "final", "harness")
 		runRaceBinary(run, tier) // first: cheap, and a data race explains most of what the exploration would then stumble over
-		nScen := 13
+		nScen := 16
 		for _, indexed := range []bool{false, true} {
 			for i, sc := range scenarios(indexed) {
 				if i >= nScen {
